@@ -41,7 +41,8 @@ if [ "${1:-}" = "--replay" ]; then
   exec "$BIN" replay -file "$2"
 fi
 if [ "$ID" = C19 ]; then
-  export GORACE="halt_on_error=0 log_path=$WORK/C19-$TIER.race/race"
-  rm -rf "$WORK/C19-$TIER.race"; mkdir -p "$WORK/C19-$TIER.race"
+  export VERIF_RACE_DIR="$WORK/C19-$TIER.race"
+  export GORACE="halt_on_error=0 log_path=$VERIF_RACE_DIR/race"
+  rm -rf "$VERIF_RACE_DIR"; mkdir -p "$VERIF_RACE_DIR"
 fi
 exec "$BIN" run -prop "$ID" -tier "$TIER"
